@@ -17,6 +17,14 @@ package corr
 //
 // ops: cfg init= min= max= pacer=noop|leaky ext=<1: TWCC header extension, 0: none (RFC 8888)> [pcerr=<1: the pacer's Close returns an error>] | sent n= size= gap=<µs> | adv us=
 //      | fb kind=twcc|8888 base=<first seq> a=<arrival µs or x, comma separated> [bad=short|unk] | close | gate open=0|1
+//      | wr0 what=nil|none|other     WriteRTCP of a batch that feeds nothing: a nil slice, an empty slice, packets that are
+//                                    no transport feedback (PLI + RR).  `wr err=nil` while open, `wr err=closed` after Close
+//                                    ("after Close EVERY call returns the closed error": the batch need not hold anything)
+//      | sent … [nilp=1]             the payload handed to Write is nil (with size=0: empty inputs on the RTP path too)
+//
+// Class `empty` (and a sprinkling in every class): empty inputs on every entry point before and after Close — wr0 in its
+// three forms, feedback that marks no packet received (`a=x,x`: the TWCC recorder then builds NO packet, WriteRTCP gets
+// an empty batch; the RFC 8888 report holds only not-received metric blocks), RTP writes with an empty / a nil payload.
 //
 // Scenario classes beyond one estimator fed well-formed reports by a caller whose callback returns at once:
 //
@@ -473,7 +481,11 @@ func gccSession(t *testing.T, ops []string, o *Out, onFb func(gccObs, int, int),
 					h := &rtp.Header{Version: 2, PayloadType: 96, SequenceNumber: uint16(seq), SSRC: 1, Timestamp: uint32(seq) * 3000}
 					ext, _ := (&rtp.TransportCCExtension{TransportSequence: uint16(tw)}).Marshal()
 					_ = h.SetExtension(5, ext)
-					_, _ = in.w.Write(h, make([]byte, size), nil)
+					payload := make([]byte, size)
+					if m["nilp"] == "1" && size == 0 {
+						payload = nil
+					}
+					_, _ = in.w.Write(h, payload, nil)
 					seq++
 					tw++
 					if gap > 0 {
@@ -481,6 +493,21 @@ func gccSession(t *testing.T, ops []string, o *Out, onFb func(gccObs, int, int),
 					}
 					synctest.Wait()
 				}
+			case "wr0":
+				what := m["what"]
+				if in == nil || (what != "nil" && what != "none" && what != "other") {
+					o.P("bad-op")
+					continue
+				}
+				var pkts []rtcp.Packet
+				switch what {
+				case "none":
+					pkts = []rtcp.Packet{}
+				case "other":
+					pkts = []rtcp.Packet{&rtcp.PictureLossIndication{SenderSSRC: 99, MediaSSRC: 1}, &rtcp.ReceiverReport{SSRC: 99}}
+				}
+				pr.at("the WriteRTCP of `" + op + "`")
+				o.P("%s", in.feed(pkts))
 			case "adv":
 				d, ok := c17NatOK(m, "us", 600_000_000)
 				if !ok {
@@ -664,7 +691,7 @@ func inBubbleT(f func(t *testing.T)) {
 
 func genGcc(r *Rng, tier string, idx int) Case {
 	classes := []string{"wellformed", "lossy", "heavyloss", "reordered", "identical", "hugegaps", "congested",
-		"rfc8888", "mixed", "closed", "minabove100k", "minequalsmax", "ratecalc", "slowcb", "rejected"}
+		"rfc8888", "mixed", "closed", "minabove100k", "minequalsmax", "ratecalc", "slowcb", "rejected", "empty"}
 	cl := classes[idx%len(classes)]
 	type cfgT struct{ ini, mn, mx int }
 	grid := []cfgT{{10_000, 5_000, 50_000_000}, {1_000_000, 1_000_000, 1_000_000}, {2_000_000, 1_000_000, 5_000_000},
@@ -703,7 +730,7 @@ func genGcc(r *Rng, tier string, idx int) Case {
 	tw := 0
 	nowUs := 0
 	closeAt := -1
-	if cl == "closed" {
+	if cl == "closed" || (cl == "empty" && r.Bool()) {
 		closeAt = r.Range(1, nfb-1)
 	}
 	owd := r.Pick(5_000, 20_000, 100_000) // one way delay µs
@@ -720,9 +747,32 @@ func genGcc(r *Rng, tier string, idx int) Case {
 	lastArr, rcMode := 0, 0
 	gated := 0 // feedbacks left until the callback gate opens again (0: open)
 	gates := cl == "slowcb" || (cl == "rejected" && r.Chance(1, 3))
+	// an input that feeds nothing (class `empty`, now and then in every class)
+	emptyOp := func() string {
+		switch r.Intn(7) {
+		case 0:
+			return "wr0 what=nil"
+		case 1:
+			return "wr0 what=none"
+		case 2:
+			return "wr0 what=other"
+		case 3:
+			return fmt.Sprintf("fb kind=twcc base=%d a=%s", tw&0xFFFF, []string{"x", "x,x", "x,x,x,x,x,x,x,x"}[r.Intn(3)])
+		case 4:
+			return fmt.Sprintf("fb kind=8888 base=%d a=%s", tw&0xFFFF, []string{"x", "x,x"}[r.Intn(2)])
+		case 5:
+			tw++
+			return "sent n=1 size=0 gap=0 nilp=1"
+		}
+		tw++
+		return "sent n=1 size=0 gap=0"
+	}
 	for i := 0; i < nfb; i++ {
 		if i == closeAt {
 			ops = append(ops, "close")
+		}
+		if (cl == "empty" && r.Chance(1, 3)) || r.Chance(1, 40) {
+			ops = append(ops, emptyOp())
 		}
 		if gates {
 			switch {
@@ -754,7 +804,7 @@ func genGcc(r *Rng, tier string, idx int) Case {
 		for k := 0; k < n; k++ {
 			arr := sendT[k] + owd + queue
 			mode := cl
-			if cl == "mixed" || cl == "closed" || cl == "rfc8888" || cl == "minabove100k" || cl == "minequalsmax" || cl == "slowcb" || cl == "rejected" {
+			if cl == "mixed" || cl == "closed" || cl == "empty" || cl == "rfc8888" || cl == "minabove100k" || cl == "minequalsmax" || cl == "slowcb" || cl == "rejected" {
 				mode = []string{"wellformed", "reordered", "identical", "congested", "wellformed"}[r.Intn(5)]
 			}
 			switch mode {
@@ -837,11 +887,14 @@ func genGcc(r *Rng, tier string, idx int) Case {
 	}
 	// lifecycle tail: Close (the drawn pacer may fail to close), feedback of both kinds after Close,
 	// sometimes a second Close and feedback again
-	if cl == "closed" || r.Chance(1, 3) {
+	if cl == "closed" || cl == "empty" || r.Chance(1, 3) {
 		if closeAt < 0 {
 			ops = append(ops, "close")
 		}
 		tail := func() {
+			for k := r.Pick(0, 1, 2); k > 0 || (cl == "empty" && k > -3); k-- {
+				ops = append(ops, emptyOp())
+			}
 			for _, k := range []string{"twcc", "8888"} {
 				if r.Chance(3, 4) {
 					ops = append(ops, fmt.Sprintf("fb kind=%s base=%d a=%d,%d", k, (tw-2)&0xFFFF, nowUs+1000, nowUs+2000))
